@@ -131,6 +131,11 @@ func c15Run(c c15Case) error {
 		r.SeparatorChar, r.SeparatorFunc, _ = buildSep(w.Sep)
 		wls = append(wls, &wlState{r: r, list: wl, input: in, inCopy: append([]string{}, in...), spec: w, order: readOrder(wl)})
 	}
+	oldT, oldF := spg.MaxTrials, spg.MaxFailRate
+	defer func() { spg.MaxTrials, spg.MaxFailRate = oldT, oldF }()
+	cfgT, cfgF := oldT, oldF // what the caller last configured
+	spareCap = 3
+	defer func() { spareCap = 0 }()
 	lastCallOn := -1
 	setSince := map[int]bool{}
 	nontrivial := false
@@ -142,6 +147,18 @@ func c15Run(c c15Case) error {
 				continue
 			}
 			ws = wls[(op.Target-nC)%len(wls)]
+		}
+		if op.Op == "config" {
+			// the exported retry budget is configuration the caller may change
+			spg.MaxTrials = op.Int
+			cfgT = op.Int
+			for k := range setSince {
+				delete(setSince, k)
+			}
+			for i := 0; i < nC+len(wls); i++ {
+				setSince[i] = true
+			}
+			continue
 		}
 		if op.Op == "set" {
 			setSince[op.Target] = true
@@ -296,6 +313,9 @@ func c15Run(c c15Case) error {
 				return fmt.Errorf("step %d: the slice passed to NewWordList was modified: %q", step, ws.input)
 			}
 		}
+		if spg.MaxTrials != cfgT || spg.MaxFailRate != cfgF {
+			return fmt.Errorf("step %d: %s changed the package configuration: MaxTrials %d (caller set %d), MaxFailRate %g (caller set %g)", step, method, spg.MaxTrials, cfgT, spg.MaxFailRate, cfgF)
+		}
 		lastCallOn = op.Target
 		delete(setSince, op.Target)
 	}
@@ -327,6 +347,12 @@ func c15Gen(t *rapid.T) c15Case {
 	for i := 0; i < nOps; i++ {
 		var op c15Op
 		op.Target = rapid.IntRange(0, nC+nW-1).Draw(t, "target")
+		if rapid.IntRange(0, 19).Draw(t, "config") == 0 {
+			op.Op = "config"
+			op.Int = rapid.SampledFrom([]int{1, 5, 200, 200}).Draw(t, "maxtrials")
+			c.Ops = append(c.Ops, op)
+			continue
+		}
 		if rapid.IntRange(0, 2).Draw(t, "kind") == 0 {
 			op.Op = "set"
 			if op.Target < nC {
